@@ -17,7 +17,8 @@ Inputs(n) == {Impulse(n, m) : m \in 1..n} \cup {Dense(n)}
 RealInputs(n) == {Impulse(n, m) : m \in 1..n} \cup {DenseReal(n)}
 
 VARIABLES n, x, kind, ok
-Init == /\ n \in Lens
+Init == /\ wtab = WTable
+        /\ n \in Lens
         /\ kind \in {"complex", "real"}
         /\ x \in (IF kind = "complex" THEN Inputs(n) ELSE RealInputs(n))
         /\ ok = "unchecked"
@@ -28,7 +29,7 @@ Checkit ==
              ELSE (IF Fft(x) = Dft(x)
                       /\ (n % 2 = 0 => (RealFft(x) = Dft(x) /\ Irfft(Dft(x), Variant) = Force(x)))
                    THEN "pass" ELSE "fail")
-    /\ UNCHANGED <<n, x, kind>>
-Spec == Init /\ [][Checkit]_<<n, x, kind, ok>>
+    /\ UNCHANGED <<n, x, kind, wtab>>
+Spec == Init /\ [][Checkit]_<<n, x, kind, ok, wtab>>
 KernelsEqualDft == ok # "fail"
 =============================================================================
